@@ -91,6 +91,20 @@ check("C08", "model_checking",
       "covered by the C20 check.",
       "TLA+ brute-force specs evaluated by TLC against real-code answers", "DESIGN.md §5 C08")
 
+check("C13", "model_checking",
+      "The synchronisation protocols are TLA+ specs model-checked over all interleavings (V2FLazyInit: double-checked "
+      "locking of the lazy vertex index, 3 readers - OneBuild, Mutex, PublishedComplete, Agree, termination; SharedCellMax). "
+      "The real Mesh.getVertexToFace is bound to the spec by hook traces (one event per critical step, with the observed "
+      "publication state) recorded from 2-4 goroutines making their first queries - free-running and with a scheduler gate "
+      "that releases late readers while the builder is inside the fill loop - and validated event by event by TLC "
+      "(V2FTrace); answers are compared with sequential use. The harness is built with -race; free-running scenarios "
+      "(mesh/collider/SDF/solid/hierarchy queries, marching cubes/squares, dual contouring, rasterising, k-means, height-map "
+      "filling, three renderers, memoised curves) run at GOMAXPROCS 2/4/16 and every race report or runtime 'concurrent map' "
+      "abort is a violation keyed by the racing functions.",
+      "Trusted: TLC, the Go race detector as run-time monitor. Executed schedules are a sample; all interleavings are "
+      "covered only at the level of the protocol specs and the conformance of hook traces to them.",
+      "TLA+ protocol model checking + TLC trace validation of hook traces + race detector on executed schedules", "DESIGN.md §5 C13")
+
 _pending = "check not built yet in this session (planned, see DESIGN.md §10)"
 for pid in ["C01","C02","C03","C04","C05","C06","C07","C08","C10","C11","C12","C13","C14","C15","C16","C17","C18","C20"]:
     if pid not in CHECKS:
